@@ -72,13 +72,13 @@ Print Assumptions C35_every_crash_point_visible_complete.
    (mutating operations, bucket listing after each, returned nil?, meta file
    afterwards). If the model reproduces it, the predicate evaluated on those
    observables holds. *)
-Theorem C35_accepted_case_satisfies_property : forall c, corr_ok c = true -> pred_ok c = true.
+Theorem C35_accepted_case_satisfies_property : forall c, corr_ok c = true -> pred_core c = true.
 Proof. exact corr_implies_pred. Qed.
 Print Assumptions C35_accepted_case_satisfies_property.
 
 Theorem C35_model_run_is_accepted : forall U L cs steps,
   wf_univ_b U = true -> model_steps U L ([], None) cs = Some steps ->
-  corr_ok (CSync U L steps) = true /\ pred_ok (CSync U L steps) = true.
+  corr_ok (CSync U L steps) = true /\ pred_core (CSync U L steps) = true.
 Proof. exact model_case_ok. Qed.
 Print Assumptions C35_model_run_is_accepted.
 
